@@ -367,8 +367,11 @@ def run(repo, tier):
     rep.analysed['mnemonic encoders reached'] = len(enc & it.reached)
     rep.analysed['item / token / error constructions reached'] = len(it.ev_construct)
     rep.sample({'conversions': ['{} from {}:{} in {}'.format(r.cls, r.chain[-1][0], getattr(r.origin, 'lineno', '?'), q) for (q, h, r) in list(conv.values())[:12]]})
+    for nid, (q, node, callee) in sorted(it.arity_mismatch.items(), key=lambda t: getattr(t[1][1], 'lineno', 0)):
+        if not any(k[1] == nid for k in it.call_edges):
+            undecided.append('{}:{} no callee of `{}` accepts the arguments as the analysis sees them'.format(q, getattr(node, 'lineno', '?'), unparse(node)[:50]))
     if undecided and not rep.findings:
-        raise AnalysisError('line provenance not established: ' + '; '.join(sorted(set(undecided))[:4]))
+        raise AnalysisError('not established: ' + '; '.join(sorted(set(undecided))[:4]))
     if enc and len(enc & it.reached) < len(enc):
         if not rep.findings:
             raise AnalysisError('encoders bound in INSTRUCTIONS are not reached from assemble(): {}'.format(sorted(enc - it.reached)[:5]))
